@@ -58,11 +58,15 @@ BaseSegs(b) == CASE b = "none"   -> <<>>
                  [] b = "root"   -> <<>>
                  [] b = "base"   -> <<"base">>
                  [] b = "nested" -> <<"base", "nested">>
+                 [] b = "bquery" -> <<"base">>          \* a base path AND a query in the configured endpoint URL
+                 [] b = "nquery" -> <<>>                \* no base path, but a query
 \* the base path as written in the endpoint URL
 BaseStr(b)  == CASE b = "none"   -> ""
                  [] b = "root"   -> "/"
                  [] b = "base"   -> "/base"
                  [] b = "nested" -> "/base/nested/"
+                 [] b = "bquery" -> "/base?cfgkey=1"
+                 [] b = "nquery" -> "?cfgkey=1"
 RelSegs(which) == IF which = "health" THEN <<"health">> ELSE <<"v1", "models">>
 
 -----------------------------------------------------------------------------
